@@ -209,7 +209,8 @@ class Core(object):
         names = IMPLIED_END
         if "ruby-no-rb-rtc" in self.sw:
             names = ("dd", "dt", "li", "optgroup", "option", "p", "rp", "rt")
-        while self.cur is not None and self.cur.ns == HTML and self.cur.name in names and self.cur.name != exclude:
+        anyns = "implied-end-tags-ignore-namespace" in self.sw
+        while self.cur is not None and (self.cur.ns == HTML or anyns) and self.cur.name in names and self.cur.name != exclude:
             self.stack.pop()
 
     # ------------------------------------------------------------------ insertion
